@@ -57,7 +57,8 @@ Step ==
   /\ l <= Len(T.steps) /\ l' = l + 1 /\ UNCHANGED tid
   /\ LET op == S.op IN
      CASE op[1] = "stage" ->
-            LET sn == (op[2] :> [kind |-> op[3], ev |-> <<>>, live |-> ~IsDone(phase), closed |-> FALSE, bare |-> Len(op) > 3]) @@ seen
+            LET sn == (op[2] :> [kind |-> op[3], ev |-> <<>>, live |-> ~IsDone(phase), closed |-> FALSE,
+                                     bare |-> Len(op) > 3 /\ op[4] = "bare", boom |-> Len(op) > 3 /\ op[4] = "boom"]) @@ seen
             IN /\ seen' = sn /\ phase' = phase
                /\ fails' = fails \o CheckStages(sn, phase) \o CheckClean(phase)
                            \o (IF S.outcome = "ok" THEN <<>> ELSE <<F("Outcome", "stage", S.outcome)>>)
@@ -71,7 +72,10 @@ Step ==
             LET sn == [sid \in DOMAIN seen |-> IF seen[sid].live THEN [seen[sid] EXCEPT !.closed = TRUE] ELSE seen[sid]]
                 \* an empty max/min/last/sum has no result: giving reports that as a stream error, which is raised from the
                 \* deactivation when the stage was subscribed without an error handler (trusted giving/reactivex semantics)
-                mustRaise == \E sid \in DOMAIN sn : sn[sid].live /\ sn[sid].bare /\ sn[sid].ev = <<>> /\ sn[sid].kind \in {"max", "min", "last", "sum"}
+                \* ... and a completion callback that raises (an abort request, not an Exception) is raised from the deactivation too -
+                \* after every pipeline was completed and the probe deactivated
+                mustRaise == \E sid \in DOMAIN sn : sn[sid].live /\ ((sn[sid].bare /\ sn[sid].ev = <<>> /\ sn[sid].kind \in {"max", "min", "last", "sum"})
+                                                                     \/ (sn[sid].boom /\ (sn[sid].kind = "accum" \/ sn[sid].ev # <<>> \/ sn[sid].kind = "count")))
                 ph2 == IF phase = "doneX" THEN "doneX" ELSE "done"
             IN /\ phase' = ph2 /\ seen' = sn
                /\ fails' = fails \o CheckStages(sn, ph2) \o CheckClean(ph2)
@@ -84,7 +88,7 @@ Step ==
                          THEN [sid \in DOMAIN seen |-> IF seen[sid].live THEN [seen[sid] EXCEPT !.ev = Append(@, op[2] + 1)] ELSE seen[sid]]
                          ELSE seen
                 closed == [sid \in DOMAIN first |-> IF first[sid].live THEN [first[sid] EXCEPT !.closed = TRUE] ELSE first[sid]]
-                sn == (op[4] :> [kind |-> "accum", ev |-> <<>>, live |-> FALSE, closed |-> FALSE, bare |-> FALSE]) @@ closed
+                sn == (op[4] :> [kind |-> "accum", ev |-> <<>>, live |-> FALSE, closed |-> FALSE, bare |-> FALSE, boom |-> FALSE]) @@ closed
             IN /\ phase' = "doneX" /\ seen' = sn
                /\ fails' = fails \o CheckStages(sn, "doneX") \o CheckClean("doneX")
                            \o (IF S.outcome = "ok" THEN <<>> ELSE <<F("Outcome", "calld", S.outcome)>>)
